@@ -27,9 +27,9 @@ MetricDomain(g) == (\A x \in Nodes(g) \ {g.seed} : g.len[x] >= 0) \/ (\A x \in N
 Opts(e) == (IF e.ub THEN "ub1" ELSE "ub0") \o (IF e.su THEN "su1" ELSE "su0") \o (IF e.cb THEN "cb1" ELSE "cb0")
 
 \* would the clean-up after the re-seeding of to_outgroup_position dissolve the outgroup (or its parent)?
-OutgroupDissolved(pre, og, su) ==
+OutgroupDissolved(pre, og, ub, su) ==
     LET p == pre.par[og]
-        r == ReseedCore(pre, p, su, TRUE, {})
+        r == ReseedCore(pre, p, ub, su, TRUE, {})
     IN og \notin Reachable(r) \/ p \notin Reachable(r) \/ r.par[og] # p
 \* discriminator: call site / input shape
 Cls(e) ==
@@ -38,7 +38,7 @@ Cls(e) ==
             (IF ~(MidpointOk(pre) /\ Exact(pre) /\ MidpointExact(pre)) THEN "midpoint_inexact_or_outside_precondition"
              ELSE IF MidpointOnNode(pre) THEN "midpoint_on_existing_node" ELSE "midpoint_inside_edge")
       [] e.action = "ToOutgroupPosition" ->
-            (IF OutgroupDissolved(pre, e.x, e.su) THEN "outgroup_or_parent_dissolved_by_cleanup" ELSE "outgroup_survives_cleanup")
+            (IF OutgroupDissolved(pre, e.x, e.ub, e.su) THEN "outgroup_or_parent_dissolved_by_cleanup" ELSE "outgroup_survives_cleanup")
       [] e.action = "CollapseUnweightedEdges" ->
             (IF \E x \in Leaves(pre) : pre.len[x] < 0 /\ pre.par[x] # 0 THEN "leaf_without_length" ELSE "all_leaves_weighted")
       [] e.action \in {"ReseedAt", "RerootAtNode", "RerootAtEdge"} -> (IF IsLeaf(pre, e.x) THEN "at_leaf:" ELSE "at_internal:") \o Opts(e)
